@@ -261,6 +261,8 @@ LABELS = [("p", "n"), ("a-rather-long-accession.number.12", "a product name that
 def obligations(tier, seed):
     obs = []
     idsets = [["mod-A", "mod_B", "the.vector"], ["m0", "m1", "v"]]
+    # identifiers are arbitrary labels: endings a string clean-up could mistake for a file extension or a version
+    odd_ids = [["pJ23100-rbs_b", "lib.gb", "dialog."], ["x.1", "seq.fasta", "b"]]
     for m in (1, 2):
         for sym in range(m + 1):
             for n in ([4, tier_pick(tier, 8, 12)] if tier == "quick" else range(2, 13, 2)):
@@ -268,6 +270,10 @@ def obligations(tier, seed):
                 obs.append(Ob("provenance m=%d symbolic spans in element %d n=%d" % (m, sym, n), ob_provenance,
                               dict(m=m, sym=sym, n=n, ids=ids, pid="prod.1", pname="my product", level2=False),
                               samples=5, cost=n * n * 30))
+    for k, ids in enumerate(odd_ids):
+        obs.append(Ob("provenance m=2 with input ids %s" % ids, ob_provenance,
+                      dict(m=2, sym=0, n=6, ids=ids, pid="prod.gb", pname="prod", level2=False), samples=5, cost=1200,
+                      group="ids"))
     for m in (1, 2):
         obs.append(Ob("requested id and name of every shape m=%d" % m, ob_provenance,
                       dict(m=m, sym=-1, n=9, ids=idsets[0][:m] + [idsets[0][2]], pid="?", pname="?", level2=False, labels=True),
